@@ -99,6 +99,25 @@ def run(ctx):
                     continue
                 break
     ctx.extra['nested_named_records'] = nnested
+    # CROSSING operations of one thread (START A, START B, END A, END B - a call parked in the kernel while another one of the
+    # thread completes; a lost END): B is still rendered from B's START record - never from a word of A's records
+    ncross = 0
+    names_c = decoders()
+    for name in names_c:
+        for rep in range(1 if ctx.quick else 4):
+            other = names_c[rnd.randrange(len(names_c))]
+            if other == name:
+                continue
+            S = pr.distinct_words(name, 'start')
+            E = [0] + pr.distinct_words(name, 'end')[1:]
+            base = pr.render(name, S, E, [])
+            t2 = pr.render(name, S, E, [], cross=(other, pr.distinct_words(other, 'start'), [0] + pr.distinct_words(other, 'end')[1:]))
+            ncross += 1
+            if base is not None and t2 != base:
+                ctx.violation('C09/crossing-operation-changes-call@%s' % name,
+                              '%s reads %r; started inside a %s call of the same thread that ends before it, it reads %r' % (name, base, other, t2),
+                              {'kind': 'render', 'name': name, 'start': [hex(x) for x in S], 'end': [hex(x) for x in E]})
+    ctx.extra['crossing_operations'] = ncross
     # SCALE: an operation whose START and END are thousands of records apart (a parked thread, nested interrupts): the
     # call is still rendered from ITS START record
     from .pairing import new_parser
